@@ -24,7 +24,36 @@ EXPLANATION = (
 BA = "hta.analyzers.breakdown_analysis"
 
 
+ROLES = ("idle", "compute", "non_compute", "kernel")          # positions of the per-rank result: idle, compute, non-compute, kernel (span) time
+
+
+def _role_of_field(name: str):
+    n = name.lower()
+    if "idle" in n:
+        return 0
+    if "non" in n and "comp" in n:
+        return 2
+    if "comp" in n:
+        return 1
+    if "kernel" in n or "total" in n or "span" in n:
+        return 3
+    return None
+
+
+def _as_four(ret):
+    """the per-rank result as a 4-tuple in the order (idle, compute, non-compute, kernel): a plain tuple is positional, a NamedTuple is read by its field names"""
+    if isinstance(ret, PyTuple):
+        return ret
+    if isinstance(ret, Obj) and isinstance(ret.attrs.get("__fields__"), list) and len(ret.attrs["__fields__"]) == 4:
+        roles = [_role_of_field(f) for f in ret.attrs["__fields__"]]
+        if sorted(r_ for r_ in roles if r_ is not None) == [0, 1, 2, 3]:
+            by = dict(zip(roles, ret.attrs["__fields__"]))
+            return PyTuple([ret.attrs[by[i]] for i in range(4)])
+    return ret
+
+
 def _per_rank_path(db, chk, where2, TR, r, calls, ptag):
+    r.ret = _as_four(r.ret)
     if isinstance(r.ret, PyTuple) and len(r.ret.items) == 4 and len(calls) == 1:
         # only the device rows were merged: whatever compute_time is, it is not the measure of merged COMPUTATION intervals
         c1 = calls[0]
@@ -160,8 +189,21 @@ def run(db, chk) -> None:
     where3 = m.loc(f3)
     parts = PyTuple([T.P("IDLE"), T.P("COMPUTE"), T.P("NONCOMPUTE"), T.P("KERNEL")])
 
+    # the per-rank function may hand its four results over as a NamedTuple: the stand-in has the same class and field names (values by role)
+    nt_fields = None
+    for rn_ in [n for n in ast.walk(f2) if isinstance(n, ast.Return) and isinstance(n.value, ast.Call) and H.name_id(n.value.func) in m.classes]:
+        cdef = m.classes[H.name_id(rn_.value.func)]
+        if any(isinstance(b, ast.Name) and b.id == "NamedTuple" for b in cdef.bases):
+            flds = [st_.target.id for st_ in cdef.body if isinstance(st_, ast.AnnAssign) and isinstance(st_.target, ast.Name)]
+            if len(flds) == 4 and sorted(x for x in map(_role_of_field, flds) if x is not None) == [0, 1, 2, 3]:
+                nt_fields = flds
+
     def hook3(I, name, pos, kw, node):
         if name.split(".")[-1] == per_rank_name:
+            if nt_fields is not None:
+                o = Obj("per_rank_result", attrs={f_: parts.items[_role_of_field(f_)] for f_ in nt_fields})
+                o.attrs["__fields__"] = list(nt_fields)
+                return o
             return PyTuple(list(parts.items))
         if name.startswith("px.") or name.startswith("fig."):
             return None
